@@ -129,9 +129,10 @@ func (p *PortSet) Intersection(other *PortSet) {
 	p.Ports = p.Ports.Intersect(other.Ports)
 }
 
-// IsAll: return true if current PortSet object contains all ports
+// IsAll: return true if current PortSet object contains all ports: the full port range with no named port excluded
+// (the full port range covers any named port, so names held next to it are redundant)
 func (p *PortSet) IsAll() bool {
-	return p.Equal(MakePortSet(true))
+	return p.Ports.Equal(MakePortSet(true).Ports) && len(p.ExcludedNamedPorts) == 0
 }
 
 const comma = ","
